@@ -174,6 +174,11 @@ func (g *Gen) execInstr(fr *Frame, st *State, in ssa.Instruction, r string) bool
 		if obj := x.Object(); obj != nil {
 			if _, isVar := obj.(*types.Var); isVar {
 				fr.collectObjs()
+				if os.Getenv("GOVC_DEBUG_KEY") != "" && (obj.Name() == "vkey" || obj.Name() == "origin") {
+					_, a := fr.allocOf[obj]
+					_, f := fr.freeOf[obj]
+					fmt.Fprintf(os.Stderr, "  debugref %s@%d isaddr=%v alloc=%v free=%v frame=%s X=%T\n", obj.Name(), g.prog.Fset.Position(obj.Pos()).Line, x.IsAddr, a, f, fr.key, x.X)
+				}
 				if a, ok := fr.allocOf[obj]; ok {
 					// address-taken variable: always resolved through its cell
 					if av, ok := fr.vals[a]; ok {
@@ -183,6 +188,9 @@ func (g *Gen) execInstr(fr *Frame, st *State, in ssa.Instruction, r string) bool
 				} else if fv, ok := fr.freeOf[obj]; ok {
 					st.src[obj] = fr.val(fv)
 					st.srcAddr[obj] = true
+				} else if st.srcAddr[obj] && !x.IsAddr {
+					// the variable already lives in a cell (captured by reference in an enclosing closure, e.g. assigned
+					// from a deferred inner closure): the Store has updated the cell; keep resolving the name through it
 				} else {
 					st.src[obj] = fr.val(x.X)
 					st.srcAddr[obj] = x.IsAddr
